@@ -120,6 +120,10 @@ def expr_sx(expr):
             return ['*'] + [walk(a) for a in e.args]
         if e.is_Pow and e.args[1].is_Integer and int(e.args[1]) >= 0:
             return ['^', walk(e.args[0]), int(e.args[1])]
+        if isinstance(e, sympy.Max) and len(e.args) == 2 and any(a.is_Integer and int(a) == 0 for a in e.args):
+            other = [a for a in e.args if not (a.is_Integer and int(a) == 0)]
+            if len(other) == 1:
+                return ['max0', walk(other[0])]
         raise Unsupported('expression %s' % e)
     return walk(sympy.sympify(expr.sympified_expression))
 
@@ -710,8 +714,8 @@ def subsets(names):
             yield list(c)
 
 
-def random_cases(ctx, n_templates, max_subsets):
-    rng = ctx.fork('templates')
+def random_cases(ctx, n_templates, max_subsets, part=None):
+    rng = ctx.fork('templates' if part is None else 'templates/%d' % part)
     for _ in range(n_templates):
         spec = gen_spec(rng, rng.choice([2, 3, 3, 4]), list(POOL[:3]))
         try:
@@ -740,7 +744,7 @@ def random_cases(ctx, n_templates, max_subsets):
             yield Case(spec, missing, [], [], 'malformed-missing-parameter')
 
 
-def exhaustive_cases(ctx):
+def exhaustive_cases(ctx, part=None, parts=1):
     """all two-level nestings over a small expression set x all volatile subsets x all single updates"""
     exprs = ctx.n(['2', 'n', 'n*m', '2*n+m'], ['2', 'n', 'm', 'n*m', '2*n+m', 'n+1'])
     vals = ctx.n([0, 1, 3], [0, 1, 2, 3])
@@ -748,9 +752,13 @@ def exhaustive_cases(ctx):
               lambda e1, e2: ('rep', e1, ('seq', [('rep', e2, ('atom', 0)), ('atom', 1)])),
               lambda e1, e2: ('seq', [('rep', e1, ('seq', [('atom', 0), ('atom', 1)])), ('rep', e2, ('atom', 2))])]
     n = 0
+    tno = -1
     for shape in shapes:
         for e1 in exprs:
             for e2 in exprs:
+                tno += 1
+                if part is not None and tno % parts != part:
+                    continue
                 spec = shape(e1, e2)
                 names = sorted(spec_params(spec))
                 if not names:
@@ -765,12 +773,12 @@ def exhaustive_cases(ctx):
                         yield Case(spec, params, vol, [dict(zip(vol, combo))], 'exhaustive')
                         n += 1
     ctx.exhaustive_spaces.append('3 two-level shapes x count expressions %s^2 x every volatile subset x every single '
-                                 'update with values in %s (%d cases)' % (exprs, vals, n))
+                                 'update with values in %s%s' % (exprs, vals, ' (%d cases)' % n if part is None else ''))
 
 
-def sequence_cases(ctx, n):
+def sequence_cases(ctx, n, part=None):
     """multi-parameter counts with partial updates (a stale scope shows on the second update)"""
-    rng = ctx.fork('sequences')
+    rng = ctx.fork('sequences' if part is None else 'sequences/%d' % part)
     for _ in range(n):
         e = rng.choice(['2*n+m', 'n*m', 'n+m', 'n+2*m+1'])
         shape = rng.choice([
@@ -790,10 +798,10 @@ def sequence_cases(ctx, n):
         yield Case(shape, params, vol, ups, 'partial-update-sequences')
 
 
-def coincide_cases(ctx, n):
+def coincide_cases(ctx, n, part=None):
     """volatile counts that are equal at instantiation (n = 0) and differ after an update: equal-looking
-    instrument tables must not be shared (PF-24)"""
-    rng = ctx.fork('coincide')
+    instrument tables must not be shared (PF-C15a)"""
+    rng = ctx.fork('coincide' if part is None else 'coincide/%d' % part)
     for _ in range(n):
         e = rng.choice(['n*i+1', 'n*i+m', 'n*i*i+1', 'm+n*i'])
         inner = rng.choice([
@@ -838,23 +846,28 @@ class _Collect(core.Ctx):
         self.collected.append((what, replay, found_input))
 
 
+FAMILIES = {}
+
+
 def _worker(args):
-    tier, seed, pipelines, cases = args
+    tier, seed, pipelines, family, part, size, extra = args
     sub = _Collect('C15', tier, seed)
     Q()
     warnings.filterwarnings('ignore')
+    cases = FAMILIES[family](sub, size, part, extra)
     run_cases(sub, cases, pipelines)
     return {'counters': sub.counters, 'evaluations': sub.evaluations, 'distinct': sub.distinct,
             'samples': sub.samples, 'violations': sub.collected, 'drifts': sub.drifts,
-            'disagreements': sub.disagreements}
+            'disagreements': sub.disagreements, 'spaces': sub.exhaustive_spaces}
 
 
-def run_cases_parallel(ctx, cases, pipelines=PIPELINES, workers=14, chunk=40):
+def run_family_parallel(ctx, family, total, per_part, pipelines=PIPELINES, extra=None, workers=14):
+    """the case family is generated inside the workers, part by part, from PRNG streams derived from the seed"""
     import multiprocessing
-    cases = list(cases)
-    chunks = [(ctx.tier, ctx.seed, pipelines, cases[i:i + chunk]) for i in range(0, len(cases), chunk)]
+    parts = [(ctx.tier, ctx.seed, pipelines, family, k, min(per_part, total - k * per_part), extra)
+             for k in range((total + per_part - 1) // per_part)]
     with multiprocessing.get_context('fork').Pool(workers) as pool:
-        for res in pool.imap_unordered(_worker, chunks):
+        for res in pool.imap_unordered(_worker, parts):
             for k, v in res['counters'].items():
                 ctx.count(k, v)
             ctx.evaluations += res['evaluations']
@@ -864,8 +877,19 @@ def run_cases_parallel(ctx, cases, pipelines=PIPELINES, workers=14, chunk=40):
                     ctx.samples.append(smp)
             ctx.disagreements += res['disagreements']
             ctx.drifts.extend(res['drifts'])
+            for sp in res['spaces']:
+                if sp not in ctx.exhaustive_spaces:
+                    ctx.exhaustive_spaces.append(sp)
             for what, rec, found in res['violations']:
                 ctx.violation(what, rec, found)
+
+
+FAMILIES.update({
+    'exhaustive': lambda ctx, size, part, extra: exhaustive_cases(ctx, part, extra),
+    'sequences': lambda ctx, size, part, extra: sequence_cases(ctx, size, part),
+    'coincide': lambda ctx, size, part, extra: coincide_cases(ctx, size, part),
+    'random': lambda ctx, size, part, extra: random_cases(ctx, size, extra, part),
+})
 
 
 def run(ctx: core.Ctx):
@@ -886,7 +910,7 @@ def run(ctx: core.Ctx):
         'flatten_and_balance, prepare_program_for_advanced_sequence_mode and the layout of the Tabor tables are '
         'correspondence-only (updated against freshly compiled, on the implementation); the table update itself is '
         'modelled (tableUpdate) and compared on the real volatile positions',
-        'PF-07, PF-24, PF-25, PF-26 repaired (fixes/*.diff): the check passes only with these applied',
+        'PF-07, PF-C15a, PF-C15b, PF-C15c, PF-C15d repaired (fixes/*.diff): the check passes only with these applied',
     ]
     Q()
     for rec in ctx.corpus():
@@ -898,10 +922,11 @@ def run(ctx: core.Ctx):
         run_cases(ctx, coincide_cases(ctx, 12))
         run_cases(ctx, random_cases(ctx, 100, 6))
     else:
-        run_cases_parallel(ctx, exhaustive_cases(ctx), pipelines=('none', 'cleanup', 'flatten2', 'tabor', 'cleanup+tabor'))
-        run_cases_parallel(ctx, sequence_cases(ctx, 2500))
-        run_cases_parallel(ctx, coincide_cases(ctx, 400))
-        run_cases_parallel(ctx, random_cases(ctx, 6000, 16))
+        run_family_parallel(ctx, 'exhaustive', 28, 1, pipelines=('none', 'cleanup', 'flatten2', 'tabor', 'cleanup+tabor'),
+                            extra=28)
+        run_family_parallel(ctx, 'sequences', 1500, 50)
+        run_family_parallel(ctx, 'coincide', 300, 25)
+        run_family_parallel(ctx, 'random', 2800, 25, extra=16)
 
 
 def replay(ctx: core.Ctx, rec: dict, from_corpus: bool = False) -> bool:
